@@ -149,7 +149,16 @@ func c06Replay(c *Case, realm RealmSetup, steps []scriptStep, k int, inside, rem
 		// its WELCOME only 5 s after the shutdown began: the join is in flight at the shutdown
 		welcoming := w.AddPuppet(sim.PuppetSpec{Kind: sim.Local, Unbuffered: true})
 		welcoming.Stall()
-		welcoming.Send(&wamp.Hello{Realm: wamp.URI(realm.Name), Details: wamp.Dict{"roles": sim.AllFeatures()}})
+		metaHold := c.Rng.IntN(100) < 35
+		if metaHold {
+			// instead: the stalled session has called a meta procedure; the realm's meta session is busy
+			// retrying the RESULT it cannot queue (for up to a minute) when the shutdown comes. (Not combined with
+			// the in-flight join: a join during that hold waits on the realm's close lock, a mutex wait that the
+			// bubble cannot see through.)
+			stalled.Send(&wamp.Call{Request: 2, Options: wamp.Dict{}, Procedure: "wamp.session.count"})
+		} else {
+			welcoming.Send(&wamp.Hello{Realm: wamp.URI(realm.Name), Details: wamp.Dict{"roles": sim.AllFeatures()}})
+		}
 		w.Wait()
 		// bystanders in the other realm
 		var by0, by1 *sim.Puppet
@@ -269,7 +278,7 @@ func c06Replay(c *Case, realm RealmSetup, steps []scriptStep, k int, inside, rem
 			if welcomed && !told && !closed {
 				c.Fail("SD3", "client welcomed during shutdown neither told nor disconnected", "a client whose WELCOME was in flight when the shutdown began took it 5 s later and then saw neither GOODBYE nor its transport closing: %s", obsString(welcoming.Log(), 4))
 			}
-			if !welcomed && !told && !closed {
+			if !welcomed && !told && !closed && !metaHold {
 				c.Fail("SD3", "client joining during shutdown left without an answer", "a client that had sent HELLO before the shutdown saw neither WELCOME, ABORT nor its transport closing: %s", obsString(welcoming.Log(), 4))
 			}
 		}
